@@ -92,6 +92,9 @@ type interpreter struct {
 	stubs              map[string]value       // callee name -> harness function (vStub)
 	lazyGlobals        bool
 	initOnly           *ssa.Package           // when set, calls to other packages' init are skipped
+	mapOrder           map[uintptr][]value    // insertion order of every interpreted map (deterministic iteration)
+	mapPerm            map[[2]uintptr]int     // chosen iteration permutation per (map, size)
+	symMaps            map[uintptr][]symEntry // entries whose key is a symbolic string
 }
 
 type deferred struct {
@@ -334,7 +337,12 @@ func visitInstr(fr *frame, instr ssa.Instruction) continuation {
 		fr.env[instr] = makeMap(instr.Type().Underlying().(*types.Map).Key(), reserve)
 
 	case *ssa.Range:
-		fr.env[instr] = rangeIter(fr.get(instr.X), instr.X.Type())
+		switch x := fr.get(instr.X).(type) {
+		case map[value]value, *hashmap:
+			fr.env[instr] = rangeMap(fr, x)
+		default:
+			fr.env[instr] = rangeIter(x, instr.X.Type())
+		}
 
 	case *ssa.Next:
 		fr.env[instr] = fr.get(instr.Iter).(iter).next()
@@ -373,12 +381,22 @@ func visitInstr(fr *frame, instr ssa.Instruction) continuation {
 		}
 
 	case *ssa.Lookup:
-		fr.env[instr] = lookup(instr, fr.get(instr.X), concKey(fr.get(instr.Index)))
+		if r, ok := symLookup(fr, instr, fr.get(instr.X), fr.get(instr.Index)); ok {
+			fr.env[instr] = r
+		} else {
+			fr.env[instr] = lookup(instr, fr.get(instr.X), concKey(fr.get(instr.Index)))
+		}
 
 	case *ssa.MapUpdate:
 		m := fr.get(instr.Map)
-		key := concKey(fr.get(instr.Key))
 		v := fr.get(instr.Value)
+		if symUpdate(fr, m, fr.get(instr.Key), v) {
+			break
+		}
+		key := concKey(fr.get(instr.Key))
+		if !mapHas(m, key) {
+			fr.i.noteInsert(m, key)
+		}
 		switch m := m.(type) {
 		case map[value]value:
 			m[key] = v
